@@ -6949,6 +6949,11 @@ class Rect(Shape):
             self.rx = self.rx.value(relative_length=width, **kwargs)
         if isinstance(self.ry, Length):
             self.ry = self.ry.value(relative_length=height, **kwargs)
+        if not any(
+            isinstance(v, Length) for v in (self.width, self.height, self.rx, self.ry)
+        ):
+            # Radii given with units could not be clamped to half the side before they were resolved.
+            self._validate_rect()
         return self
 
     def is_degenerate(self):
